@@ -14,7 +14,7 @@ func vpDB() database.Database {
 
 //vp:property C14
 //vp:set k 3 4
-//vp:bounds K requests (quick 3, thorough 4) over two session identifiers; each request is one of {negotiate, authenticate for a 2-character user name with symbolic characters, undecodable base64, a non-NTLM byte string, empty message}; user database {"ab","ef": non-empty passwords, "cd": empty password}; the client's proof was computed from an arbitrary password of {ab's, ef's, another} under the name it sends or under ab's/ef's name, against the challenge of an arbitrary server session created so far; cached contexts may or may not expire between requests
+//vp:bounds K requests (quick 3, thorough 4) over three session identifiers (two of them differing by a trailing blank only); each request is one of {negotiate, authenticate for a 2-character user name with symbolic characters, undecodable base64, a non-NTLM byte string, empty message}; user database {"ab","ef": non-empty passwords, "cd": empty password}; the client's proof was computed from an arbitrary password of {ab's, ef's, another} under the name it sends or under ab's/ef's name, against the challenge of an arbitrary server session created so far; cached contexts may or may not expire between requests
 //vp:assume go-ntlm's ProcessAuthenticateMessage compares against the response key it derived at the session's FIRST authenticate message (fetchResponseKeys caches it) and this session's challenge; go-cache contract
 //vp:reach authenticated challenged refused
 func VP_C14_history() {
@@ -30,7 +30,7 @@ func VP_C14_history() {
 	for i := 0; i < k; i++ {
 		vpReqNo = i
 		is := vpItoa(i)
-		sid := []string{"s1", "s2"}[vpIntRange("sid"+is, 0, 1)]
+		sid := []string{"s1", "s2", "s1 "}[vpIntRange("sid"+is, 0, 2)] // the third differs from the first by a trailing blank only
 		kind := vpIntRange("kind"+is, 0, 4)
 		text := "m" + is
 		user := ""
